@@ -118,6 +118,48 @@ def make_oracle(spec):
     return oracle
 
 
+class NotPlain(Exception):
+    pass
+
+
+def expected_output(asl, value, oracle=None):
+    """What the States Language prescribes for a PLAIN machine (Pass with/without Result, Task on an echoing function,
+    Wait, Succeed, Parallel, Map over the input list; no paths, templates, Retry/Catch, scripted outcomes): positional
+    join of the branch / item outputs, whatever the schedule.  Raises NotPlain otherwise."""
+    oracle = oracle or {}
+
+    def run(m, v):
+        name = m["StartAt"]
+        for _ in range(200):
+            st = m["States"][name]
+            t = st["Type"]
+            if set(st) - {"Type", "Next", "End", "Result", "Resource", "Seconds", "Branches", "ItemProcessor", "Iterator", "MaxConcurrency", "Comment"}:
+                raise NotPlain(name)
+            if t == "Pass":
+                v = st["Result"] if "Result" in st else v
+            elif t == "Task":
+                fn = st["Resource"][len(FN):] if st["Resource"].startswith(FN) else None
+                if fn is None or oracle.get(fn):
+                    raise NotPlain(name)
+                v = {"fn": fn, "in": v}
+            elif t == "Parallel":
+                v = [run(b, v) for b in st["Branches"]]
+            elif t == "Map":
+                if not isinstance(v, list):
+                    raise NotPlain(name)
+                proc = st.get("ItemProcessor") or st.get("Iterator")
+                v = [run(proc, x) for x in v]
+            elif t in ("Wait", "Succeed"):
+                pass
+            else:
+                raise NotPlain(name)
+            if st.get("End") or t == "Succeed":
+                return v
+            name = st["Next"]
+        raise NotPlain("loop")
+    return run(asl, value)
+
+
 # ---- the protocol corpus (C02, C03, C05, C06, C09, C11, C04) -------------------------------
 def protocol_scenarios():
     S = []
